@@ -52,6 +52,8 @@ type GenesisOpts struct {
 	MarginPools  []string
 	EpochSeconds int64 // duration of the "hour" epoch (identifier kept, duration shortened)
 	Mutate       func(w *World, gs sifapp.GenesisState)
+	// extra 18-decimal denoms: registered with all permissions; only the first two users hold them
+	ExtraDenoms []string
 }
 
 // BuildGenesis returns the world and the app-state JSON.
@@ -85,7 +87,15 @@ func BuildGenesis(seed uint64, o GenesisOpts) (*World, json.RawMessage, []string
 		return cs
 	}
 	addAcc(w.Admin, rich())
-	for _, u := range w.Users {
+	for i, u := range w.Users {
+		if i < 2 && len(o.ExtraDenoms) > 0 {
+			cs := rich()
+			for _, d := range o.ExtraDenoms {
+				cs = cs.Add(coin(d, new(big.Int).Mul(big.NewInt(1000000), pow10(18))))
+			}
+			addAcc(u, cs)
+			continue
+		}
 		addAcc(u, rich())
 	}
 
@@ -136,6 +146,9 @@ func BuildGenesis(seed uint64, o GenesisOpts) (*World, json.RawMessage, []string
 	reg := &trtypes.Registry{Entries: []*trtypes.RegistryEntry{{Denom: "rowan", BaseDenom: "rowan", Decimals: 18, Permissions: perms}}}
 	for _, t := range tokens {
 		reg.Entries = append(reg.Entries, &trtypes.RegistryEntry{Denom: t.Denom, BaseDenom: t.Denom, Decimals: t.Decimals, Permissions: perms})
+	}
+	for _, d := range o.ExtraDenoms {
+		reg.Entries = append(reg.Entries, &trtypes.RegistryEntry{Denom: d, BaseDenom: d, Decimals: 18, Permissions: perms})
 	}
 	gs[trtypes.ModuleName] = cdc.MustMarshalJSON(&trtypes.GenesisState{Registry: reg})
 
